@@ -34,9 +34,14 @@ def scheme_enums(names):
 
 
 def gen_py(ode, backend="numpy", schemes=None, remove_unused=False, delta=1e-8, stiff_states=None,
-           missing_values=None):
+           missing_values=None, shape=None):
     quiet()
     from gotranx.cli import gotran2py
+    from gotranx.codegen.base import Shape
+
+    extra = {}
+    if shape is not None:
+        extra["shape"] = Shape(shape)
 
     return gotran2py.get_code(
         ode,
@@ -47,6 +52,7 @@ def gen_py(ode, backend="numpy", schemes=None, remove_unused=False, delta=1e-8, 
         delta=delta,
         stiff_states=stiff_states,
         backend=gotran2py.Backend(backend),
+        **extra,
     )
 
 
